@@ -7,15 +7,21 @@ DRV = 'c13_generator.cpp'
 
 # ---------------------------------------------------------------------------------------------------------------- bounded drives
 D_TYPES = {'CH': CHT, 'DQCH': DQT, 'ATOMB': 'std::atomic<bool>'}
+# std::atomic<T*> members read sequentially at member-function level (lib/model_atomic_ptr_api.c)
+AP = {'ap_aw_load': r'^std::atomic<cocls::awaiter\*>::load\(std::memory_order\) const$', 'ap_aw_xchg': r'^std::atomic<cocls::awaiter\*>::exchange\(',
+      'ap_aw_cas': r'^std::atomic<cocls::awaiter\*>::compare_exchange_weak\(cocls::awaiter\*&, cocls::awaiter\*, std::memory_order, std::memory_order\)$',
+      'ap_fu_load': r'^std::atomic<cocls::future<int>\*>::load\(std::memory_order\) const$', 'ap_fu_xchg': r'^std::atomic<cocls::future<int>\*>::exchange\(',
+      'ap_fu_assign': r'^std::atomic<cocls::future<int>\*>::operator=\(cocls::future<int>\*\)$'}
+AP_TYPES = {'ATOM_AW': 'std::atomic<cocls::awaiter *>', 'ATOM_FU': 'std::atomic<cocls::future<int> *>', 'AWT': 'cocls::awaiter', 'FUT': 'cocls::future<int>'}
 D_GLOBALS = {'FRAME_KIND': 'g_frame_kind', 'G_OBS': 'g_obs', 'G_NOBS': 'g_nobs', 'G_END': 'g_end', 'G_EXC_N': 'g_exc_n', 'G_EXC_AT': 'g_exc_at', 'G_EXC_VAL': 'g_exc_val',
              'G_NMV': 'g_nmv', 'G_OTHER_EXC': 'g_other_exc', 'G_CTOR': 'g_ctor', 'G_DTOR': 'g_dtor', 'G_ARGS': 'g_args', 'G_NARGS': 'g_nargs', 'G_PENDING_SEEN': 'g_pending_seen'}
-D_BOUNDARY = [r'^std::deque<std::__n4861::coroutine_handle<void>', WAIT, NOTIFY]
-D_LIBS = ['rt_core.c', 'model_atomic_seq_ptr.c', 'model_dq_drive.c', 'model_heap_frames.c']
+D_BOUNDARY = [r'^std::deque<std::__n4861::coroutine_handle<void>', WAIT, NOTIFY] + list(AP.values())
+D_LIBS = ['rt_core.c', 'rt_atomic_seq.c', 'model_atomic_ptr_api.c', 'model_dq_drive.c', 'model_heap_frames.c']
 FK = {'vals': 'X(1, S_gen_vals_Frame)', 'throw': 'X(2, S_gen_throw_Frame)', 'arg': 'X(3, S_gen_arg_Frame)', 'await': 'X(4, S_gen_await_Frame)', 'consumer': 'X(5, S_co_consumer_Frame)'}
 def drive(name, what, frames=('vals',), unwind=8, timeout=150, **kw):
     FRAMES = 'CV_FRAME_KINDS ' + ' '.join(FK[f] for f in frames)
-    d = dict(name='drive_' + name, driver=DRV, roots=['^drive_%s$' % name], names={}, names_opt={'ab_wait': WAIT, 'ab_notify': NOTIFY}, types=D_TYPES, globals=D_GLOBALS,
-             boundary=D_BOUNDARY, lib=D_LIBS, spec=['C13/h_drive.c'], harness='h_drive', defines=['CV_NO_HEAP_PRIMS 1', FRAMES, 'DRIVE_%s 1' % name],
+    d = dict(name='drive_' + name, driver=DRV, roots=['^drive_%s$' % name], names={}, names_opt=dict(AP, ab_wait=WAIT, ab_notify=NOTIFY), types=dict(D_TYPES, **AP_TYPES), globals=D_GLOBALS,
+             boundary=D_BOUNDARY, lib=D_LIBS, spec=['C13/drive_atomics.h', 'C13/h_drive.c'], harness='h_drive', defines=['CV_NO_HEAP_PRIMS 1', FRAMES, 'DRIVE_%s 1' % name],
              unwind=unwind, object_bits=12, kind='bounded', timeout=timeout, bounded=what, under_contract=[])
     d.update(kw)
     return d
@@ -35,6 +41,4 @@ UNITS = [
     drive('await_ready', 'body awaits an already resolved future between two yields; each of the three synchronous styles', frames=('await',)),
     drive('await_co_await', 'body suspends on a pending future; the consumer coroutine co_awaits next() / the call future; the future is resolved from outside', frames=('await', 'consumer'), unwind=12),
 ]
-for n in ('dbg1','dbg2'):
-    UNITS.append(drive(n, 'dbg', frames=('await',), driver='c13_dbg.cpp', timeout=60))
 META = dict(level='proof', level_text='TODO', level_note='TODO', technique='TODO', trusted_base=[], assumptions=[], explanation='')
